@@ -123,7 +123,9 @@ def g_if(R, tier):
                      [("rep", B.length, B.jvar, False, [("stmt", tagstr(B.items[0].tag[0][1]))])],
                      [("rep", E.length, E.jvar, False, [("stmt", tagstr(E.items[0].tag[0][1]))])])]
             compare(R, f"{base}/test-once-then-exactly-one-branch/{sig}", p, p.value["res"], want, guarded=True,
-                    replay=dict(kind="src", src="log = []\ndef t(v):\n    log.append(v)\n    return v\nif t(0):\n    log.append('a')\nelse:\n    log.append('b')\nif t([]):\n    log.append('c')\nif t(1):\n    x = 0\nelse:\n    log.append('d')\n", expect="same-globals"))
+                    replay=dict(kind="src", src="log = []\ndef t(v):\n    log.append(v)\n    return v\nif t(0):\n    log.append('a')\nelse:\n    log.append('b')\nif t([]):\n    log.append('c')\nif t(1):\n    x = 0\nelse:\n    log.append('d')\n"
+                                             "for i in range(3):\n    if t(i == 1):\n        continue\n    else:\n        log.append(('i', i))\n"
+                                             "def g(x):\n    if t(x):\n        return\n    else:\n        log.append('g')\ng(1)\ng(0)\n", expect="same-globals"))
 
 
 def g_return(R, tier):
@@ -455,7 +457,8 @@ def g_assign_statement(R, tier):
 _ORDER_SRC = (
     "log = []\nclass O: pass\no = O()\nd = {}\ndef f(n, v):\n    log.append(n)\n    return v\n"
     "f('obj', o).x = f('val', 1)\nf('d', d)[f('k', 'k')] = f('v2', 2)\n"
-    "f('o2', o).y = f('d2', d)[f('k2', 2)] = z = f('v3', 3)\n")
+    "f('o2', o).y = f('d2', d)[f('k2', 2)] = z = f('v3', 3)\n"
+    "d[f('k3', 3)] = f('v4', 4)\nlst = [0, 1, 2, 3]\nlst[f('lo', 1):f('hi', 3)] = f('seq', [9])\no.z = f('v5', 5)\n")
 
 
 def _ren(x):
